@@ -759,9 +759,10 @@ import io
 class _Listing:
     """Scripted hostile directory tree: entries = [{name, type, t, sub}]"""
 
-    def __init__(self, entries):
+    def __init__(self, entries, by_occurrence=True):
         self.entries = entries
         self.asked = {}
+        self.by_occurrence = by_occurrence
 
     def find_dir(self, path):
         """sub-listing for a directory path the client asks for; the k-th
@@ -778,7 +779,7 @@ class _Listing:
                 if x['type'] == 'dir' and posixpath.join(
                         b's', e['name'], x['name']) == path:
                     cands.append(x['sub'])
-        k = self.asked.get(path, 0)
+        k = self.asked.get(path, 0) if self.by_occurrence else 0
         self.asked[path] = k + 1
         if not cands:
             return []
@@ -990,6 +991,33 @@ class DownloadWorld:
         return self._run(self.sftp.get(b's', self.area.dest.encode(),
                                        recurse=True, preserve=preserve,
                                        error_handler=handler), dest)
+
+    def run_mget(self, pattern, entries, dest, cont):
+        """SFTPClient.mget(b's/<pattern>', dest, recurse=True): client-side
+        glob expansion over the hostile listing, then the copies."""
+        self.listing = _Listing(entries, by_occurrence=False)
+        handler = (lambda exc: None) if cont else None
+        return self._run(self.sftp.mget(b's/' + pattern,
+                                        self.area.dest.encode(), recurse=True,
+                                        error_handler=handler), dest)
+
+    def run_glob(self, pattern, entries, cont, sftpname=False):
+        """SFTPClient.glob / glob_sftpname(b's/<pattern>') -> (names, exc)"""
+        self.listing = _Listing(entries, by_occurrence=False)
+        handler = (lambda exc: None) if cont else None
+        out = {}
+
+        async def go():
+            if sftpname:
+                res = await self.sftp.glob_sftpname(b's/' + pattern,
+                                                    error_handler=handler)
+                out['names'] = [n.filename for n in res]
+            else:
+                out['names'] = list(await self.sftp.glob(
+                    b's/' + pattern, error_handler=handler))
+        r = self._run(go(), 'none')
+        r['names'] = out.get('names')
+        return r
 
     def close(self):
         try:
@@ -1231,7 +1259,8 @@ def probe_links(world, init_tree, script, build, escset=None, probes=None):
     for loc in links:
         cp = '/'.join(loc[2:])
         paths += [(cp, probes or PROBE_OPS),
-                  (cp + '/a', probes or PROBE_OPS_BEYOND)]
+                  (cp + '/a', [o for o in PROBE_OPS_BEYOND
+                               if not probes or o in probes])]
     book = build['book']
     dirty = False
     base = _shape(tree)
